@@ -92,7 +92,11 @@ impl<Error: Send + 'static> DecodeScheduler<Error> {
 	}
 
 	pub fn start(mut self) {
+		#[cfg(kira_verif)]
+		use crate::verif::std_shim as std;
 		std::thread::spawn(move || loop {
+			#[cfg(kira_verif)]
+			crate::verif::yield_point("decoder.loop");
 			match self.run() {
 				Ok(result) => match result {
 					NextStep::Continue => {}
@@ -100,7 +104,11 @@ impl<Error: Send + 'static> DecodeScheduler<Error> {
 					NextStep::End => break,
 				},
 				Err(error) => {
+					#[cfg(kira_verif)]
+					crate::verif::yield_point("decoder.error.push");
 					self.error_producer.push(error).ok();
+					#[cfg(kira_verif)]
+					crate::verif::yield_point("decoder.error.flag.store");
 					self.shared.encountered_error.store(true, Ordering::SeqCst);
 				}
 			}
@@ -113,6 +121,8 @@ impl<Error: Send + 'static> DecodeScheduler<Error> {
 			return Ok(NextStep::End);
 		}
 		// if the frame ringbuffer is full, sleep for a bit
+		#[cfg(kira_verif)]
+		crate::verif::yield_point("decoder.ring.is_full");
 		if self.frame_producer.is_full() {
 			return Ok(NextStep::Wait);
 		}
@@ -128,6 +138,8 @@ impl<Error: Send + 'static> DecodeScheduler<Error> {
 			self.seek_to(position)?;
 		}
 		let frame = self.frame_at_index(self.transport.position)?;
+		#[cfg(kira_verif)]
+		crate::verif::yield_point("decoder.ring.push");
 		self.frame_producer
 			.push(TimestampedFrame {
 				frame,
@@ -136,6 +148,8 @@ impl<Error: Send + 'static> DecodeScheduler<Error> {
 			.expect("could not push frame to frame producer");
 		self.transport.increment_position(self.num_frames);
 		if !self.transport.playing {
+			#[cfg(kira_verif)]
+			crate::verif::yield_point("decoder.reached_end.store");
 			self.shared.reached_end.store(true, Ordering::SeqCst);
 			return Ok(NextStep::End);
 		}
